@@ -27,6 +27,7 @@ from . import model as M
 PROP = 'C17'
 LEVEL = 'exploration'
 STEP_UNIT = 'history operations (render, failed render, restart, copy, edit, file change)'
+CHUNK = 16      # consecutive runs per forked child (core.worker)
 CASE_TIMEOUT = 300
 TIERS = {'quick': (48000, 170), 'thorough': (2000000, 2400)}
 PROBES = ['file_template_munged_to_other_file', 'render_after_restart', 'render_after_munge',
@@ -270,6 +271,14 @@ FRAGS = [
     # render (sort=key/NAME), literally and through sort_expr
     '<dtml-in seq sort="a/cmpf"><dtml-var a>,</dtml-in>;'
     '<dtml-in mseq mapping sort_expr="sk2"><dtml-var a>,</dtml-in>',
+    # 27 a computed exception class, several handlers, in a loop and once
+    # more afterwards
+    '<dtml-in seq><dtml-try><dtml-raise expr="exc"><dtml-var a>'
+    '</dtml-raise><dtml-except KeyError>K<dtml-var error_value>'
+    '<dtml-except ValueError LookupError>V<dtml-except>O'
+    '<dtml-var error_type></dtml-try></dtml-in>|<dtml-try><dtml-raise '
+    'expr="exc">m</dtml-raise><dtml-except LookupError>L<dtml-except>o'
+    '</dtml-try>',
     # 26 a sort_expr that may give no key at all, with reverse
     '<dtml-in seq sort_expr="sk" reverse><dtml-var a>;</dtml-in>|'
     '<dtml-in pairs sort_expr="sk3" reverse_expr="rv">'
@@ -321,6 +330,8 @@ def cmp_nocase_rev(x, y):
 
 
 CMPF = {'rev': cmp_rev, 'digits': cmp_digits, 'ncrev': cmp_nocase_rev}
+EXCS = {'KeyError': KeyError, 'ValueError': ValueError,
+        'IndexError': IndexError, 'TypeError': TypeError}
 
 
 def gen_inputs(r):
@@ -336,7 +347,8 @@ def gen_inputs(r):
             'zz': r.choice([None, None, 'Z', 'zz2']),
             'cmpf': r.choice(sorted(CMPF)),
             'sk2': r.choice(['a/cmpf', 'a/cmpf/desc', 'n,a/cmpf', 'a']),
-            'sk3': r.choice([None, None, ''])}
+            'sk3': r.choice([None, None, '']),
+            'exc': r.choice(sorted(EXCS))}
 
 
 class Hook:
@@ -375,7 +387,8 @@ def build_inputs(spec, plan, template):
             'b': bytes.fromhex(spec['b']), 'n2': spec['n2'], 'c': spec['c'],
             'obj': Rec('obj', a='oa', n=9), 'hook': hook,
             'cmpf': CMPF[spec.get('cmpf', 'rev')],
-            'sk2': spec.get('sk2', 'a'), 'sk3': spec.get('sk3', '')}
+            'sk2': spec.get('sk2', 'a'), 'sk3': spec.get('sk3', ''),
+            'exc': EXCS[spec.get('exc', 'KeyError')]}
     if spec.get('zz') is not None:
         data['zz'] = spec['zz']
     watch = [seq, mseq, data, data['pairs']] + mseq + \
